@@ -354,9 +354,10 @@ func (i *Int) Double(x *Int) {
 	i.Add(x, x)
 }
 
-// IsNegative returns 1 if i is negative.
+// IsNegative returns 1 if i is negative. A zero magnitude with the sign bit set
+// (which Neg, Mul and friends can produce) is zero, not negative.
 func (i *Int) IsNegative() ct.Bool {
-	return ct.Bool((*saferith.Int)(i).IsNegative())
+	return ct.Bool((*saferith.Int)(i).IsNegative()) & i.IsNonZero()
 }
 
 // IsZero returns 1 if i == 0.
